@@ -806,6 +806,16 @@ MUTANTS = [
         return *this;""")]),
     dict(name='c11-at-lets-the-table-size-through', prop='C11', clause='D5', edits=[('include/oneapi/tbb/concurrent_vector.h',
         "        if (base_type::number_of_segments(table) <= seg_index) {", "        if (base_type::number_of_segments(table) < seg_index) {")]),
+    dict(name='c19-seed4-table-copy-keeps-its-own-key-count', prop='C19', clause='D5', edits=[('include/oneapi/tbb/enumerable_thread_specific.h',
+        "        my_count.store(other.my_count.load(std::memory_order_relaxed), std::memory_order_relaxed);",
+        "        my_count.store(my_count.load(std::memory_order_relaxed), std::memory_order_relaxed);")]),
+    dict(name='c19-table-copy-does-not-count-keys', prop='C19', clause='D5', edits=[('include/oneapi/tbb/enumerable_thread_specific.h',
+        "        my_count.store(other.my_count.load(std::memory_order_relaxed), std::memory_order_relaxed);\n", "")]),
+    dict(name='c19-tls-key-creation-result-discarded', prop='C19', clause='D5', edits=[('include/oneapi/tbb/enumerable_thread_specific.h',
+        """        if (pthread_key_create(&my_key, nullptr) != 0) {
+            tbb::detail::throw_exception(exception_id::bad_alloc);
+        }""",
+        """        (void)pthread_key_create(&my_key, nullptr);""")]),
     dict(name='c01-seed3-run-and-wait-handle-epilogue-on-exception-only', prop='C01', clause='D9', edits=[('include/oneapi/tbb/task_group.h',
         """            execute_and_wait(*acs::release(h), context(), m_wait_vertex.get_context(), context());
         }).on_completion([&] {""",
@@ -1778,6 +1788,13 @@ BENIGN = [
             auto element_address""")]),
     dict(name='c11-b-at-bound-written-the-other-way-round', prop='C11', edits=[('include/oneapi/tbb/concurrent_vector.h',
         "        if (base_type::number_of_segments(table) <= seg_index) {", "        if (!(seg_index < base_type::number_of_segments(table))) {")]),
+    dict(name='c19-b-table-copy-counts-the-copied-keys', prop='C19', edits=[('include/oneapi/tbb/enumerable_thread_specific.h',
+        "        my_count.store(other.my_count.load(std::memory_order_relaxed), std::memory_order_relaxed);\n        std::size_t mask = root->mask();",
+        "        std::size_t mask = root->mask();\n        std::size_t copied = other.my_count.load(std::memory_order_relaxed);\n        my_count.store(copied, std::memory_order_relaxed);")]),
+    dict(name='c19-b-tls-key-creation-status-in-a-local', prop='C19', edits=[('include/oneapi/tbb/enumerable_thread_specific.h',
+        """        if (pthread_key_create(&my_key, nullptr) != 0) {""",
+        """        const int status = pthread_key_create(&my_key, nullptr);
+        if (status) {""")]),
     dict(name='c01-b-group-wait-epilogue-in-a-named-lambda', prop='C01', edits=[('include/oneapi/tbb/task_group.h',
         """        try_call([&] {
             d1::wait(m_wait_vertex.get_context(), context());
